@@ -1029,6 +1029,7 @@ def search_cli(ctx, n):
         seq = rng.choice(CLI_SEQS)
         chain = rng.choice(["A", "B", "", "1", "z"])
         start = rng.choice([1, -5, -100, 98, 998, 9998])
+        start = min(start, 9999 - len(seq) + 1)  # the PDB input format has four columns for the residue number
         icode = rng.choice(["", "", "B"])
         origin = rng.choice([(0.0, 0.0, 0.0), (-960.0, 9950.0, -0.5), (123.456, -78.901, 999.5)])
         atoms = builder.build_peptide(seq, chain=chain or "A", start=start, icode=icode, origin=origin)
